@@ -38,6 +38,12 @@ def classify_known(rec, gmodel, known_ids):
     msg = ""
     if isinstance(e, dict):
         msg = e.get("err") or e.get("panic") or e.get("hang") or ""
+        full = e.get("err_full") or msg
+        if out == "engine_error" and e.get("phase", "plan") == "plan" and "lateral" in q.classes and \
+                "Column expr not referencing a valid table ref" in full and "lateral-nested-correlation-plan-error" in known_ids:
+            # class: a LATERAL subquery that itself contains a subquery (or a further LATERAL) referencing columns
+            # from outside fails in the dependent-join pushdown with this internal error, optimizer on or off
+            return "lateral-nested-correlation-plan-error"
     if out in ("engine_panic", "engine_error") and rec["cfg"].get("enable_optimizer", True) and \
             isinstance(e, dict) and e.get("phase", "plan") == "plan" and "optimizer-internal-error" in known_ids:
         # class: fails at plan time with the optimizer on, and the same statement is answered correctly with it off
